@@ -334,9 +334,16 @@ func (i *impl) exec(op string) string {
 			pts = w[2]
 		}
 		before := i.up.State().LastIssuedSequenceNumber
-		if err := i.up.WriteDataPoints(ctx, dp.ID(tok), dp.ParsePoints(pts)...); err != nil {
+		appSlice := dp.ParsePoints(pts)
+		if err := i.up.WriteDataPoints(ctx, dp.ID(tok), appSlice...); err != nil {
 			return "err " + err.Error()
 		}
+		// the application owns its slice again once WriteDataPoints has returned and reuses it for something else
+		defer func() {
+			for k := range appSlice {
+				appSlice[k] = &message.DataPoint{ElapsedTime: 424242, Payload: []byte("reused by the application")}
+			}
+		}()
 		if pts != "" {
 			i.accepted[tok] = append(i.accepted[tok], strings.Split(pts, ";")...)
 		}
